@@ -285,6 +285,36 @@ Fixpoint mp_skip (fuel : nat) (todo : N) (b : bytes) : skres :=
       end
   end.
 
+(** The same Skip in the shape of the Go code — recursive: a container's elements are skipped by
+    nested Skip calls ([skip_depth f ch r]), then the enclosing loop goes on with the siblings —
+    returning also how deep the Skip frames were stacked (a value without elements: 1).
+    CursorCodecTotal.v: it agrees with [mp_skip] on every input and its depth never exceeds the
+    number of bytes consumed. *)
+Inductive dskres := DkOk (rest : bytes) (depth : nat) | DkErr | DkOutOfFuel.
+
+Fixpoint skip_depth (fuel : nat) (k : N) (b : bytes) : dskres :=
+  if (k =? 0)%N then DkOk b 0 else
+  match b with
+  | [] => DkErr
+  | c :: rest =>
+      match mp_header c rest with
+      | None => DkErr
+      | Some (ch, r) =>
+          match fuel with
+          | O => DkOutOfFuel
+          | S f =>
+              match skip_depth f ch r with                       (* skipSlice / skipMap: one level deeper *)
+              | DkOk r1 d1 =>
+                  match skip_depth f (k - 1)%N r1 with           (* the caller's loop goes on *)
+                  | DkOk r2 d2 => DkOk r2 (Nat.max (S d1) d2)
+                  | x => x
+                  end
+              | x => x
+              end
+          end
+      end
+  end.
+
 (** ** msgpack, the struct TimeBasedCursor{Nano int64; Id string} *)
 Inductive dres (A : Type) := DOk (a : A) | DErr | DOutOfFuel.
 Arguments DOk {A} a. Arguments DErr {A}. Arguments DOutOfFuel {A}.
